@@ -347,7 +347,9 @@ func c12Record(col *collector, c c12Case, kinds []string) {
 		cl = append(cl, "process-with-one-P")
 	}
 	col.eval(len(kinds) > 0 || len(c.Doc) >= 1024, hash64(string(c.Doc), c.Op, fmt.Sprint(c.Massive, c.Exts, c.HasExts, c.Branch, c.Strict, c.SingleP)), cl...)
-	col.sample(func() any { return map[string]any{"doc": truncate(string(c.Doc), 200), "op": c.Op, "massive": c.Massive} })
+	col.sample(func() any {
+		return map[string]any{"doc": truncate(string(c.Doc), 200), "op": c.Op, "massive": c.Massive}
+	})
 }
 
 func TestC12Mutation(t *testing.T) {
@@ -421,7 +423,16 @@ func c12FromBytes(data []byte) c12Case {
 	}
 	// real Mkdir is excluded here (a fuzz worker cannot confine itself in a chroot); it is driven from the rapid side
 	opsNoReal := []string{"text", "noiter", "json", "yaml", "toml", "dryrun", "walk", "verify", "text", "json"}
-	return c12Case{Op: opsNoReal[int(data[0])%len(opsNoReal)], Massive: data[1]%2 == 1, Doc: data[2:]}
+	c := c12Case{Op: opsNoReal[int(data[0])%len(opsNoReal)], Massive: data[1]%2 == 1, Doc: data[2:]}
+	if data[1]&2 != 0 {
+		// an extension list of one hostile value (selected by the upper bits) and one ordinary one
+		c.HasExts = true
+		c.Exts = []string{c12HostileExts[int(data[1]>>3)%len(c12HostileExts)], ".go"}
+	}
+	if data[1]&4 != 0 {
+		c.Branch = &model.Branch{MidD: "%s", MidI: "|", LastD: "\\", LastI: ""}
+	}
+	return c
 }
 
 func FuzzC12(f *testing.F) {
